@@ -202,7 +202,9 @@ def main(tier, replay=None):
     if not replay:
         import listdrv
 
-        n_lists, _ = listdrv.conformance(rep, rd, PROP)     # the list helpers every interface formula is computed with
+        from vcommon import drift_tier
+
+        n_lists, _ = drift_tier(PROP, "list-operations", lambda: listdrv.conformance(rep, rd, PROP))     # the list helpers every interface formula is computed with
     shutil.rmtree(rd, ignore_errors=True)
     return rep.finish({
         "evaluations": len(paths) + n_num + 3 * n_lists,
